@@ -773,6 +773,10 @@ func TestPropUnpackWide(t *testing.T) {
 			}
 			c.Kw = append(c.Kw, UArg{Name: name, Kind: []string{"right", "right", "right", "wrong", "none"}[vk.Uniform(t, 5)]})
 		}
+		// one keyword given twice (a host-side call can do that): most often a parameter that no positional argument reaches
+		if len(c.Kw) > 0 && len(c.Kw) < 8 && vk.Chance(t, 0.3) {
+			c.Kw = append(c.Kw, UArg{Name: c.Kw[vk.Uniform(t, len(c.Kw))].Name, Kind: "right"})
+		}
 		return c
 	})
 }
